@@ -21,6 +21,7 @@ LEVEL = {
  "C10": ("exploration", "Exhaustive getter table (method x value pattern x implementor x chunk-boundary position x call path x shortfall) against a reference decoder, debug+release natively, and slices of it under Miri for host, big-endian s390x and 32-bit i686.", "§4 C10"),
  "C11": ("exploration", "Writer-tree monitor: model of appended bytes, guard bytes around fixed targets, remaining_mut/chunk_mut laws after every step, dismantling at the end, read-back with the matching getter; ledger (red zones), ASan and Miri builds.", "§4 C11"),
  "C12": ("exploration", "Dismantling oracle: after each generated use the adapter tree is taken apart with into_inner/get_ref/limit and every inner cursor compared with model[transferred..]; Reader/Writer io results; per-leaf distribution for Chain/Limit writers.", "§4 C12"),
+ "C16": ("exploration", "Differential monitor: identical seeded histories and the getter table are executed in 12 build/parity configurations (plus Miri 32-bit and big-endian for table slices) and per-case digests of all observable results are compared.", "§4 C16"),
  "C17": ("fault_enumeration", "Lying/panicking safe trait implementations (exhaustive single-lie placements per entry point, then random multi-lie schedules) are driven into 30 consumers under the ledger (violations + leak balance after unwinding), ASan/LSan and Miri; only memory errors, crashes and leaks count.", "§4 C17"),
  "C18": ("exploration", "Allocation-trend monitor over the ledger's counters for 6840 (quick) / 7980 (thorough) recycling patterns of 10^4..10^6 rounds each.", "§4 C18"),
  "C14": ("exploration", "Table monitor: every comparison/hash impl instantiation in both operand orders against slice semantics on an exhaustive small universe plus random pairs.", "§4 C14"),
@@ -40,6 +41,7 @@ NOTE = {
  "C10": "reference decoder in the harness; big-endian and 32-bit only under Miri (sampled rows)",
  "C11": "lying BufMut implementations are out of scope (unsafe trait); bytes written before an expected panic are not constrained",
  "C12": "expected inner states computed from the adapter tree by the harness",
+ "C16": "digest covers contents, lengths, capacities, return values and panic/no-panic; generator choices are assumed configuration-independent (a dependence shows up as a difference)",
  "C17": "allocation-failure aborts are not provoked; size_hint lies limited to values that panic in Vec or are small",
  "C18": "finite histories; trend judged over 9 post-warm-up windows; tolerance of 2 requests + slack as stated in DESIGN §4 C18",
  "C14": "the impl list is written out by hand in harness/src/bin/cmpfmt.rs; an impl added later is not covered until listed",
@@ -59,12 +61,13 @@ TECH = {
  "C10": "exhaustive table-driven differential monitor vs reference decoder (native, Miri host/s390x/i686)",
  "C11": "reference-model + guard-byte monitor over writer trees (ledger, ASan, Miri)",
  "C12": "dismantling oracle over adapter trees; io::Read/Write result monitor",
+ "C16": "cross-configuration differential digest monitor (12 native configs + Miri i686/s390x)",
  "C17": "fault injection of lying trait impls under allocator ledger, ASan/LSan, Miri",
  "C18": "allocation-trend monitor over allocator counters",
  "C14": "exhaustive table-driven differential monitor vs slice semantics",
  "C15": "parse-back / token-stream round-trip monitor",
 }
-ENGINE = {"C05": "conc", "C06": "conc", "C14": "cmpfmt", "C15": "cmpfmt", "C09": "bufconf", "C10": "bufconf", "C11": "bufconf", "C12": "bufconf", "C17": "bufconf", "C18": "recycle"}
+ENGINE = {"C16": "seqdrive+bufconf", "C05": "conc", "C06": "conc", "C14": "cmpfmt", "C15": "cmpfmt", "C09": "bufconf", "C10": "bufconf", "C11": "bufconf", "C12": "bufconf", "C17": "bufconf", "C18": "recycle"}
 
 checks = []
 for pid in sorted(plans.PLANS):
@@ -84,7 +87,7 @@ for pid in sorted(plans.PLANS):
     })
 claimed = {c["property_id"] for c in checks}
 allp = [json.loads(l)["id"] for l in open(os.path.join(ROOT, "properties.jsonl"))]
-na = [{"property_id": p, "reason": "check not built yet in this session (engine under construction); not claimed until it runs silently on the unchanged tree"} for p in allp if p not in claimed]
+na = [{"property_id": p, "reason": "not claimed"} for p in allp if p not in claimed]
 m = {
  "version": 1,
  "setup_cmd": "python3 check.py setup",
